@@ -14,6 +14,10 @@ Hdr == Rec[h]
 ToSet(s) == {s[i] : i \in 1 .. Len(s)}
 Has(e, f) == f \in DOMAIN e
 Cl(name, ok) == IF ok THEN {} ELSE {name}
+\* C19 lock-step: once an object has been cleared, the harness feeds every later call also to a freshly
+\* constructed object of the same configuration and records whether all answers were identical
+LockStepClause(e) == Cl("C19.clearedBehavesLikeFresh: same answers as a freshly constructed object after the same calls",
+                        Has(e, "shadow_same") => e.shadow_same)
 Report(e, failing) == \A c \in failing : PrintT(<<"REJECT", e.tid, c>>)
 PInit == l = 1 /\ h = 1
 \* one record per step; header records (one per scenario) switch the configuration
